@@ -430,6 +430,10 @@ MUTANTS = [
      "            Expression::BinaryOperator { rhs, .. } => rhs.trailing_trivia(),",
      "            Expression::BinaryOperator { lhs, .. } => lhs.trailing_trivia(),",
      "getter-updater-child-mismatch Expression reads=arg:1.BinaryOperator.lhs"),
+    ("pair-binop-leading-getter-reads-rhs", "C03", "src/formatters/trivia_util.rs",
+     "            Expression::BinaryOperator { lhs, .. } => lhs.leading_trivia(),",
+     "            Expression::BinaryOperator { rhs, .. } => rhs.leading_trivia(),",
+     "R-TRIVIAPAIR(leading)"),
     ("ignoreguard-extra-condition", "C17", "src/cli/main.rs",
      "                            opt.respect_ignores\n                                && path_is_stylua_ignored(path, opt.search_parent_directories)?",
      "                            opt.respect_ignores\n                                && !opt.check\n                                && path_is_stylua_ignored(path, opt.search_parent_directories)?",
